@@ -1306,12 +1306,24 @@ def e2e_eval(case: dict) -> _Collector:
                     await asyncio.sleep(0)
                 return cond()
 
-            sk = subject.overlay.get_id_algorithm(fmt).generate_secret_key()
             attester.overlay.set_attestation_request_callback(lambda peer, name, meta: succeed(value))
+            pre = case.get("pre")
+            if pre:
+                # the same attester and subject have used ANOTHER format of the same algorithm before (the verifier has
+                # not): whatever a node keeps per algorithm must not leak from one format into the next
+                sk_pre = subject.overlay.get_id_algorithm(pre).generate_secret_key()
+                subject.overlay.request_attestation(attester.my_peer, "earlier", sk_pre, metadata={"id_format": pre})
+                if not await pump(lambda: len(subject.overlay.database.get_all()) > 0):
+                    c.inconclusive = "the earlier attestation did not arrive at the subject within the turn limit"
+                    return
+                n_before = len(subject.overlay.database.get_all())
+            else:
+                n_before = 0
+            sk = subject.overlay.get_id_algorithm(fmt).generate_secret_key()
             attester.overlay.set_attestation_request_complete_callback(
                 lambda peer, name, h, f, from_peer=None: state.setdefault("hash", h))
             subject.overlay.request_attestation(attester.my_peer, "attribute", sk, metadata={"id_format": fmt})
-            if not await pump(lambda: len(subject.overlay.database.get_all()) > 0):
+            if not await pump(lambda: len(subject.overlay.database.get_all()) > n_before):
                 c.inconclusive = "attestation did not arrive at the subject within the turn limit"
                 return
             if "hash" not in state or not subject.overlay.database.get_attestation_by_hash(state["hash"]):
@@ -1365,13 +1377,13 @@ def e2e_eval(case: dict) -> _Collector:
 def _e2e_strategy(quick: bool, dup_mode: str = "none"):
     from hypothesis import strategies as st
     dup = {"none": st.none(), "all": st.just("all"), "mask": st.integers(1, 2 ** 32 - 1),
-           "range": st.none(), "range-dup": st.just("all")}[dup_mode]
+           "range": st.none(), "range-dup": st.just("all"), "pre": st.none()}[dup_mode]
     value = st.one_of(st.binary(max_size=40), st.text(max_size=20).map(lambda t: t.encode("utf-8")))
     exact = st.fixed_dictionaries({
         "part": st.just("e2e"), "seed": st.integers(0, 2 ** 32 - 1),
         "format": st.just("id_metadata") if quick else st.sampled_from(["id_metadata"] * 5 + ["id_metadata_big"]),
         "value": value, "rivals": st.lists(value, min_size=1, max_size=3),
-        "dup": dup})
+        "dup": dup, **({"pre": st.just("id_metadata_big")} if dup_mode == "pre" else {})})
     rng = st.fixed_dictionaries({
         "part": st.just("e2e"), "seed": st.integers(0, 2 ** 32 - 1), "format": st.just("id_metadata_range_18plus"),
         "value": st.integers(18, 200).map(_int_to_value), "dup": dup})
@@ -1385,12 +1397,13 @@ def _hyp_e2e_shard(ctx: Ctx, shard: int, nshards: int, n: int) -> None:
         c = _limited(e2e_eval, case)
         if _gave_up(ctx, c, "e2e", case):
             return
-        ctx.case(case, not c.fails, cls="b:e2e/" + case["format"] + ("/dup" if case.get("dup") else ""))
+        ctx.case(case, not c.fails, cls="b:e2e/" + case["format"] + ("/dup" if case.get("dup") else "") +
+                 ("/after-" + case["pre"] if case.get("pre") else ""))
         for v in c.fails.values():
             ctx.violation(v)
         if c.fails:
             raise c.first()
-    for mode in ("none", "all", "mask", "range", "range-dup"):
+    for mode in ("none", "all", "mask", "range", "range-dup", "pre"):
         hyp_run(ctx, "e2e:" + mode, _e2e_strategy(ctx.quick, mode), body, n, shrink_examples=6)
 
 
